@@ -134,7 +134,8 @@ def histories(rng, tier):
         out.append(("feed-%s-unrelated" % consumer, "agree-flow", v1, v2))
     # argument expressions whose type changes while the call text is unchanged; derive calls only used from a
     # _test file; a nested derive call forcing a second pass
-    fa = ["[]Item", "[]*Item", "map[string]Item", "*Item", "[2]Item", "[]string", "map[int]string"]
+    # (no "*Item": the _test file's deriveEqualOnlyInTest(*Item, *Item) would be a duplicate of it)
+    fa = ["[]Item", "[]*Item", "map[string]Item", "**Item", "[2]Item", "[]string", "map[int]string"]
     for i in range(6 if tier == "quick" else 20):
         a0, a1, b0, b1 = rng.choice(fa), rng.choice(fa), rng.choice(fa), rng.choice(fa)
         wt, ne = rng.random() < 0.6, rng.random() < 0.6
@@ -223,6 +224,11 @@ def run(rep):
         for hi, (name, cls, v1, v2) in enumerate(hs):
             rc1, d1, _ = scratch[(hi, 1)]
             rc2, d2, _ = scratch[(hi, 2)]
+            if rc2 != 0:
+                # the property speaks about what a SUCCESSFUL run leaves behind: a v2 that goderive rejects
+                # from scratch is not a regeneration scenario (counted, not compared)
+                stats["rejected_v2"] = stats.get("rejected_v2", 0) + 1
+                continue
             olds = [("v1-output", d1)]
             for src, data in (("v1", d1), ("v2", d2)):
                 if data:
